@@ -15,6 +15,13 @@
      - check_fl_samples_per_event skips empty traces, check_fl_max*_positive
        skip empty features (no exception)
      - check_feature_size counts the stored contours
+   (all committed: 8ab308c, 28dbe47) and, proposed in fixes_proposed/:
+     - C13-external-link-target-missing: an external link is recognised from
+       the link itself (its target may be missing)
+     - C13-image-rank: an image feature with fewer than three dimensions is a
+       ROI mismatch (missing dimension: encoded as -1 in [Image])
+     - C13-length-of-empty-dataset: without event count and with only empty
+       features the length is 0
    and with dclab commit ea8e52b (rectify_metadata takes the event count from
    the first trace dataset when "trace" is the alphabetically first feature;
    [rectify_gen false] is the behaviour before that commit). *)
@@ -245,7 +252,14 @@ Definition reader_entries (f : file) : list (Z * Z) :=
 Definition lends (f : file) : option Z :=
   match f_evcount f with
   | Some n => Some n
-  | None => first_nonzero (sort_by_rank (reader_entries f))
+  | None =>
+      match sort_by_rank (reader_entries f) with
+      | [] => None                       (* no feature at all: ValueError *)
+      | es => match first_nonzero es with
+              | Some n => Some n
+              | None => Some 0           (* all features are empty *)
+              end
+      end
   end.
 
 Definition flmax_innate (f : file) (i : Z) : bool :=
@@ -273,6 +287,26 @@ Definition check_basin_features_internal (f : file) : list cue :=
                               (filter (fun x => negb (memZ x g)) (snd b))
                 end
               else []) (f_basins f).
+
+(* hdf5_has_external: the objects of the file as a tree; an external link
+   (h5py.ExternalLink, its target may not exist), a virtual dataset and a
+   dataset with external raw storage are external data, groups are searched
+   recursively.  The harness abstracts the whole file to [list h5obj] and
+   [mk_file] sets [f_extlink] with this function. *)
+Inductive h5obj :=
+| H5Dataset (virtual extstorage : bool)
+| H5Group (members : list h5obj)
+| H5ExtLink.
+
+Fixpoint obj_external (o : h5obj) : bool :=
+  match o with
+  | H5Dataset v e => v || e
+  | H5Group ms => existsb obj_external ms
+  | H5ExtLink => true
+  end.
+
+Definition has_external (root : list h5obj) : bool :=
+  existsb obj_external root.
 
 Definition check_external_links (f : file) : list cue :=
   if f_extlink f then [ExternalLink] else [].
@@ -618,6 +652,65 @@ Definition complete_input (f : file) (n : Z) : bool :=
                    end) (f_basins f).
 
 (* ------------------------------------------------------------------ *)
+(* the other write paths, in terms of the abstract file                *)
+(* ------------------------------------------------------------------ *)
+Definition with_content (h : file) (feats : list feat)
+  (traces : list (Z * (Z * Z))) (unknown : list Z) (ext : bool)
+  (basins : list (bool * list Z)) (bev : option (list Z)) : file :=
+  mkFile (f_evcount h) feats (f_trace_rank h) traces unknown ext
+         (f_roi_x h) (f_roi_y h) (f_frame_rate h) (f_pixel_size h)
+         (f_channel_width h) (f_flow_rate h) (f_plain h) (f_imaging_other h)
+         (f_chcount h) (f_chnames h) (f_lasercount h) (f_lambdas h)
+         (f_powers h) (f_spe h) (f_polys h) (f_zmd h) basins bev.
+
+(* copier.rtdc_copy (dclab-repack, first half of dclab-compress): features
+   known to dclab are copied, h5py copies the data behind links into the new
+   file; metadata, basins and basin_events are copied *)
+Definition copy_model (f : file) : file :=
+  with_content f (f_feats f) (f_traces f) [] false (f_basins f)
+               (f_basin_events f).
+
+(* dclab-compress appends its log with an RTDCWriter: metadata completion *)
+Definition compress_model (f : file) : option file := rectify (copy_model f).
+
+Definition zseq (a n : Z) : list Z :=
+  map (fun i => a + Z.of_nat i) (seq 0 (Z.to_nat n)).
+
+(* a stored feature written again with [n] events: the writer stores an
+   enumeration as "index" whatever it is given *)
+Definition relen (n : Z) (d : fdata) : fdata :=
+  match d with
+  | Plain _ => Plain n
+  | Image w _ h x => Image w n h x
+  | Index _ => Index (zseq 1 n)
+  | FlMax i _ => FlMax i n
+  | Temp _ z => Temp n z
+  | MlScore _ b => MlScore n b
+  | MlClass _ => MlClass n
+  end.
+
+(* a file derived from the stored file [g] by a dclab tool: a selection of
+   its features (ranks [keep]) and, as a whole, its traces, all with [n]
+   events, further features [extra] (ancillary or "index", [n] events), the
+   metadata of [g]; internal basins are not exported.  Then the writer's
+   completion.  Instances: ds.export.hdf5 (features, filtered), dclab-split
+   (all features, a slice), dclab-join (common features, summed length),
+   dclab-condense (scalar features plus computed ones). *)
+Definition derive_input (g : file) (keep : list Z) (keep_trace : bool)
+  (extra : list feat) (n : Z) : file :=
+  with_content g
+    (map (fun ft => mkFeat (ft_rank ft) (relen n (ft_data ft)))
+         (filter (fun ft => memZ (ft_rank ft) keep) (f_feats g)) ++ extra)
+    (if keep_trace
+     then map (fun t : Z * (Z * Z) => (fst t, (n, snd (snd t)))) (f_traces g)
+     else [])
+    [] false [] None.
+
+Definition derive_model (g : file) (keep : list Z) (keep_trace : bool)
+  (extra : list feat) (n : Z) : option file :=
+  rectify (derive_input g keep keep_trace extra n).
+
+(* ------------------------------------------------------------------ *)
 (* entry points for the harness (flat case encoding)                   *)
 (* ------------------------------------------------------------------ *)
 Definition oz (l : list Z) : option Z :=
@@ -649,33 +742,22 @@ Definition mk_basin (l : list Z) : bool * list Z :=
 
 (* scalars: 0 evcount 1 roi_x 2 roi_y 3 frame_rate 4 pixel_size
    5 channel_width 6 flow_rate 7 chcount 8 lasercount 9 spe (each [] or [v])
-   10 [trace_rank] 11 [extlink] 12 [imaging_other] 13 [zmd]
+   10 [trace_rank] 11 (unused) 12 [imaging_other] 13 [zmd]
    14 basin_events: [] (absent) or 1 :: members *)
 Definition mk_file (sc : list (list Z)) (feats traces : list (list Z))
   (unknown plain chnames lambdas : list Z) (powers polys basins : list (list Z))
-  : file :=
+  (tree : list h5obj) : file :=
   let g i := nth i sc [] in
   let flag i := match g i with v :: _ => negb (v =? 0) | [] => false end in
   mkFile (oz (g 0%nat)) (map mk_feat feats)
          (match g 10%nat with v :: _ => v | [] => 0 end)
-         (map mk_triple traces) unknown (flag 11%nat)
+         (map mk_triple traces) unknown (has_external tree)
          (oz (g 1%nat)) (oz (g 2%nat)) (oz (g 3%nat)) (oz (g 4%nat))
          (oz (g 5%nat)) (oz (g 6%nat)) plain (flag 12%nat)
          (oz (g 7%nat)) chnames (oz (g 8%nat)) lambdas (map mk_pair powers)
          (oz (g 9%nat)) (map mk_pair polys) (flag 13%nat)
          (map mk_basin basins)
          (match g 14%nat with _ :: r => Some r | [] => None end).
-
-(* what the writer's completion sets, as a flat list:
-   [ok; evcount; spe?; spe; chc?; chc; rx?; rx; ry?; ry] *)
-Definition oflat (o : option Z) : list Z :=
-  match o with Some v => [1; v] | None => [0; 0] end.
-Definition rectify_flat (fixed : bool) (f : file) : list Z :=
-  match rectify_gen fixed f with
-  | None => [0]
-  | Some g => [1] ++ oflat (f_evcount g) ++ oflat (f_spe g)
-              ++ oflat (f_chcount g) ++ oflat (f_roi_x g) ++ oflat (f_roi_y g)
-  end.
 
 (* ------------------------------------------------------------------ *)
 (* cli/task_verify_dataset.py: exit status of dclab-verify-dataset      *)
@@ -698,28 +780,72 @@ Definition verify_exit (f : file) (nalert : Z) : Z :=
 
 Definition case : Type :=
   (list (list Z) * list (list Z) * list (list Z) * list Z * list Z * list Z
-   * list Z * list (list Z) * list (list Z) * list (list Z))%type.
+   * list Z * list (list Z) * list (list Z) * list (list Z)
+   * list h5obj)%type.
 
 Definition file_of_case (c : case) : file :=
   let '(sc, feats, traces, unknown, plain, chnames, lambdas, powers, polys,
-        basins) := c in
-  mk_file sc feats traces unknown plain chnames lambdas powers polys basins.
+        basins, tree) := c in
+  mk_file sc feats traces unknown plain chnames lambdas powers polys basins
+          tree.
 
 Definition run_flat (c : case) : list (list Z) :=
   violations_flat (file_of_case c).
-
-(* [[rectify before the fix]; [rectify]; then the violations of the
-   rectified file] *)
-Definition run_writer_flat (c : case) : list (list Z) :=
-  let f := file_of_case c in
-  [rectify_flat false f; rectify_flat true f]
-  ++ match rectify f with
-     | Some g => violations_flat g
-     | None => []
-     end.
 
 (* [[exit status; 0; 0]] followed by the violations; the second component is
    the number of alerts reported by the implementation *)
 Definition run_flat_x (p : case * Z) : list (list Z) :=
   let f := file_of_case (fst p) in
   [verify_exit f (snd p); 0; 0] :: violations_flat f.
+
+(* the whole abstract file in the case encoding (inverse of mk_file, without
+   the object tree), for the comparison of derived files *)
+Definition ol (o : option Z) : list Z :=
+  match o with Some v => [v] | None => [] end.
+Definition bz (b : bool) : Z := if b then 1 else 0.
+Definition feat_flat (ft : feat) : list Z :=
+  match ft_data ft with
+  | Plain l => [ft_rank ft; 0; l]
+  | Image w l h x => [ft_rank ft; 1; w; l; h; x]
+  | Index v => [ft_rank ft; 2; 0; 0; 0] ++ v
+  | FlMax i l => [ft_rank ft; 3; i; l]
+  | Temp l z => [ft_rank ft; 4; l; bz z]
+  | MlScore l b => [ft_rank ft; 5; l; bz b]
+  | MlClass l => [ft_rank ft; 6; l]
+  end.
+Definition file_flat (f : file) : list (list (list Z)) :=
+  [ [ol (f_evcount f); ol (f_roi_x f); ol (f_roi_y f); ol (f_frame_rate f);
+     ol (f_pixel_size f); ol (f_channel_width f); ol (f_flow_rate f);
+     ol (f_chcount f); ol (f_lasercount f); ol (f_spe f);
+     [f_trace_rank f]; [bz (f_extlink f)]; [bz (f_imaging_other f)];
+     [bz (f_zmd f)];
+     match f_basin_events f with Some g => 1 :: g | None => [] end];
+    map feat_flat (f_feats f);
+    map (fun t : Z * (Z * Z) => [fst t; fst (snd t); snd (snd t)]) (f_traces f);
+    [f_unknown f]; [f_plain f]; [f_chnames f]; [f_lambdas f];
+    map (fun p : Z * Z => [fst p; snd p]) (f_powers f);
+    map (fun p : Z * Z => [fst p; snd p]) (f_polys f);
+    map (fun b : bool * list Z => bz (fst b) :: snd b) (f_basins f) ].
+
+Definition ofile_flat (o : option file) : list (list (list Z)) :=
+  match o with Some f => file_flat f | None => [] end.
+
+(* (case of the source, [[keep]; [keep_trace]; [n]], extra features) *)
+Definition run_derive_flat (p : case * list (list Z) * list (list Z))
+  : list (list (list Z)) :=
+  let '(c, par, extra) := p in
+  let keep := nth 0 par [] in
+  let kt := match nth 1 par [] with v :: _ => negb (v =? 0) | [] => false end in
+  let n := match nth 2 par [] with v :: _ => v | [] => 0 end in
+  ofile_flat (derive_model (file_of_case c) keep kt (map mk_feat extra) n).
+
+(* dclab-repack / dclab-compress of any (also corrupted) file *)
+Definition run_copy_flat (p : case * Z) : list (list (list Z)) :=
+  let f := file_of_case (fst p) in
+  if snd p =? 0 then file_flat (copy_model f)
+  else ofile_flat (compress_model f).
+
+(* the file completed by the writer, whole, for the comparison with the
+   written file *)
+Definition run_rectify_flat (c : case) : list (list (list Z)) :=
+  ofile_flat (rectify (file_of_case c)).
